@@ -38,6 +38,7 @@ fn main() {
                 codec_random: num("codec", 100),
                 div_cases: num("div", 30),
                 split_cases: num("split", 100),
+                gcd_sweep: num("gcd", 0),
                 profile: get("profile", "all"),
             };
             let what = get("what", "lattice+random");
